@@ -528,3 +528,90 @@ ADDED.update({
     "C30": "every terminal set also runs after a sync group of a different "
            "layout was laid out in the same process.",
 })
+
+
+# third round of additions (DESIGN.md section 10, third wave)
+def _more(pid, text):
+    ADDED[pid] = (ADDED[pid] + " " if pid in ADDED else "") + text
+
+
+_more("C01", "operand registers are read back raw after every statement (an "
+      "assignment changes its destination only); memory operands at "
+      "addresses computed at run time (base + offset register).")
+_more("C03", "every comparison of a bit field (1-5 bits wide, all positions) "
+      "with every constant 0..2^bits and True/False on every field value, "
+      "surrounding bits all-0 and all-1.")
+_more("C04", "statements inside a Dict lookup block (body and Else) followed "
+      "by member accesses of the looked-up value; histories in which the "
+      "same main program class was instantiated before with other "
+      "subprograms; hash-map variable <- hash-map variable.")
+_more("C05", "the program kinds added to C01 C03 C04 C06 C07 C08 C09 since "
+      "(computed addresses, else-if chains, exit bodies, bit-field "
+      "comparisons, lookup blocks, class histories, zero amounts, "
+      "multi-guard programs, two maps, prefixed formats) are loaded too; "
+      "adapter signatures are checked and every re-used family must yield "
+      "programs.")
+_more("C06", "amount 0 (int, 0.0, register, local) next to the non-zero "
+      "amounts; instances run different statements on one variable; one or "
+      "two statements per program.")
+_more("C07", "constants 2^k-1, 2^k, -2^k, -2^k-1 for k = 7 8 15 16 31 32 63 "
+      "and their byte-swapped images for prefixed formats; forests of 1-3 "
+      "packet-size guards (nested in body or Else, sequential, with and "
+      "without `as p`, outer Else used after the inner guard, under "
+      "minimumPacketSize) on every length within 2 of every guard value.")
+_more("C08", "two maps per program (ArrayMap + PerCPUArrayMap in both orders, "
+      "two of one kind), each map's bytes judged separately; two live "
+      "instances of one program class with different subprograms.")
+_more("C09", "operations that collect keys / items first and use them "
+      "afterwards; 2-3 live instances of one program class (and closed / "
+      "re-created ones) with interleaved operations, each judged against "
+      "its own model; byte-order-prefixed hash-map variables and Dict "
+      "members.")
+_more("C10", "byte-order-prefixed hash-map variables; histories of two "
+      "programs with close() in between (the simulated kernel recycles "
+      "descriptor numbers lowest-first; a clean EBADF is no overrun).")
+_more("C12", "an index that is free again (no copy of its frame on the wire) "
+      "may be drawn again as a deviation; every function of the random "
+      "source is the harness's.")
+_more("C15", "exchanges the CoE model refuses (missing object / sub-index, "
+      "read-only entry), after which the counter chain must go on; "
+      "participants owning a second LockFile copy (second constructor call, "
+      "pickle round trip) that is dropped at an explorer-chosen point; "
+      "object lifetime is part of the execution (cyclic collector off while "
+      "it runs, collected before its world is torn down).")
+_more("C17", "the same Terminal object decoding two sync-manager categories "
+      "one after the other (all pairs of sequences of <= 2 / <= 3 areas).")
+_more("C18", "masters whose logical windows come from a real FMMULock (2-4 "
+      "groups, also groups larger than 0x400 bytes).")
+_more("C19", "every single-variable case also after a terminal of the same "
+      "class with another PDO table (other widths and bit numbers) had the "
+      "same variables resolved.")
+_more("C20", "an input and an output mapping at the same logical address.")
+_more("C21", "working counters that equal the expected one in their low 8 / "
+      "15 bits; the life cycle of one or two fast groups (real run / "
+      "register_sync_group / update_devices on the virtual loop, every frame "
+      "through the real dispatcher and group bytecode) with loss, time-out, "
+      "wrong counters, cancel() and running=False as deviations, including "
+      "the passes between cancellation and unregistration.")
+_more("C22", "the same life cycle with two masters sharing one program table "
+      "and random group numbers from a domain of three, so that slot "
+      "collisions are forced: a registered group's slot holds its own "
+      "program, and the group is run again after every loss.")
+_more("C24", "a second group of the same master, started before or after the "
+      "group under test, keeps running and must not notice the cancellation "
+      "(state requests, program table slot); the second registration of an "
+      "execution first draws the number of the first.")
+_more("C25", "an address reserved ahead of its use followed by a scan (and "
+      "concurrently with it); a frame slower than a pending time-out is a "
+      "deviation whenever a timer is pending.")
+_more("C28", "two Serial devices in one sync group (both channels of one "
+      "terminal, channels of two terminals), each channel judged separately; "
+      "a Serial abandoned with unsent bytes followed by a fresh one.")
+_more("C29", "write=True variables; the write history P a, C b, P a, C b, C "
+      "b, P b, P a, C a, C b across the two processes with both sides "
+      "reading after every write; rejected writes (out of range, wrong type, "
+      "wrong arity, wrong only in a later member) in both processes must "
+      "leave every variable as it was.")
+_more("C30", "the same group object stopped (running = False) and started "
+      "again; an output set between two cycles from outside update() must be "
+      "in the first frame sent afterwards.")
